@@ -31,6 +31,10 @@ class OperandToScale(IntEnum):
 def quantise_scale(scale):
     significand, exponent = math.frexp(scale)
     significand_q31 = int(round_away_zero(significand * (1 << 31)))
+    if significand_q31 == (1 << 31):
+        # Rounding reached 1.0: renormalise as the TFLite reference does
+        significand_q31 //= 2
+        exponent += 1
     exponent_q31 = exponent - 31
     shift = exponent_q31 * -1
 
